@@ -8,13 +8,19 @@
          bundled database; [alone_serializes_inst_ok]: the per-instance predicate [inst_ok] is "the instance serializes on its own";
          [each_alone_then_set_any_order] (+ _bundled): the C08 clause as one theorem; the hypotheses are needed
          ([each_alone_needs_types_agree_refuted], [each_alone_needs_db_check_refuted]).
-     G3  (partial) [written_columns_spec]: every written instance finds its OWN value (after the column's migration) in every column
+     G3  [written_columns_spec]: every written instance finds its OWN value (after the column's migration) in every column
          it carries a spelling of, and the database default of ITS class in the others; [known_props_roundtrip_partial]:
-         BinRoundTrip.file_values_roundtrip without the hypothesis that the file was written. *)
+         BinRoundTrip.file_values_roundtrip without the hypothesis that the file was written (generic in the column law);
+         [cell_ok] / [normB] / [known_col_roundtrip]: the column law for 22 wire types from the round trips of BinValuesFacts 1-3, for the
+         canonical type the reader finds; [pair_cells_ok] / [dom_values_ok] / [dom_sstrs_ok]: ONE executable predicate on the DOM
+         (value ranges, reader arm, back-lookup of the serialized name = canonical name without migration, serialized names);
+         [known_columns_cells], [plan_hyps_from_dom] (ser_names_ok, name_cols_ok, sstr_ok discharged);
+         [known_props_roundtrip] (+ _bundled): the CLOSED whole-file statement; [bundled_back_offenders]: the two properties of the
+         bundled database whose serialized name leads back to another property; [bundled_example_roundtrip]: computed example. *)
 From Coq Require Import Lia Permutation String.
-From RbxVerif Require Import Base Bytes Value Db DbCheck CodecDom Attr BinValues BinFile BinFileFacts AttrFacts AttrSafe
-                             BinColumnsFacts DbFacts BinPostorder BinStructure BinTypeInfoFacts.
-From RbxVerif Require BinaryTypes Database BinRoundTrip.
+From RbxVerif Require Import Base Bytes Value Utf8 Db DbCheck CodecDom Attr BrickColor BinValues BinFile BinFileFacts AttrFacts AttrSafe
+                             BinColumnsFacts DbFacts BinPostorder BinStructure BinValuesFacts BinValuesFacts2 BinTypeInfoFacts.
+From RbxVerif Require BinaryTypes Database BinRoundTrip BinValuesFacts3 BinChunkFacts.
 Open Scope N_scope.
 
 (* ========================================================================================== *)
@@ -298,14 +304,16 @@ Record pinv (seen : bytes * value -> Prop) (st : pstate) : Prop := mkPInv {
              exists n v s ty, seen (n, v) /\ resolve_prop d class n v = Ok (RProp c s ty (Some op));
   pv_dss : forall c pi s, bfind c (ps_props st) = Some pi -> pi_default pi = VSharedString s -> In s (ps_ss st);
   pv_vss : forall n s, seen (n, VSharedString s) -> In s (ps_ss st);
-  pv_res : forall n v, seen (n, v) -> exists r, resolve_prop d class n v = Ok r
+  pv_res : forall n v, seen (n, v) -> exists r, resolve_prop d class n v = Ok r;
+  pv_ser : forall c pi, bfind c (ps_props st) = Some pi -> c <> NAME ->
+             exists n v ty m, seen (n, v) /\ resolve_prop d class n v = Ok (RProp c (pi_ser_name pi) ty m)
 }.
 
 Lemma pstep_pinv (seen : bytes * value -> Prop) st n v st' :
   (forall x, seen x -> In x All) -> In (n, v) All ->
   pstep d class cls st (n, v) = Ok st' -> pinv seen st -> pinv (fun x => seen x \/ x = (n, v)) st'.
 Proof.
-  intros Hall Hnv H [Ivis Icol Imk Iname Imig Idss Ivss Ires].
+  intros Hall Hnv H [Ivis Icol Imk Iname Imig Idss Ivss Ires Iser].
   assert (Hall' : forall x, (seen x \/ x = (n, v)) -> In x All) by (intros x [Hx| ->]; auto).
   apply pstep_inv in H.
   destruct H as [Hv Ev Ep Es|Hv Hr Ev Ep Es|c s ty m pi Hv Hr Hf Ev Ep Es|c s ty m dv wt Hv Hr Hf Hc Ev Ep Es].
@@ -322,6 +330,7 @@ Proof.
     + intros c pi s Hf Hd. apply track_incl. eauto.
     + intros n' s [Hs|[= -> <-]]; [apply track_incl; eauto|apply track_sstr_in].
     + intros n' v' [Hs|[= -> ->]]; [eauto|]. rewrite Hsame. eauto.
+    + intros c0 pi0 Hf0 Hc0. destruct (Iser c0 pi0 Hf0 Hc0) as (n0 & v0' & ty0 & m0 & H1 & H2). exists n0, v0', ty0, m0. auto.
   - (* a name that does not serialize *)
     constructor; rewrite ?Ev, ?Ep, ?Es.
     + intros n' Hn'. rewrite bmem_cons in Hn'. apply orb_true_iff in Hn'. destruct Hn' as [Hn'|Hn'].
@@ -334,6 +343,7 @@ Proof.
     + intros c pi s Hf Hd. apply track_incl. eauto.
     + intros n' s [Hs|[= -> <-]]; [apply track_incl; eauto|apply track_sstr_in].
     + intros n' v' [Hs|[= -> ->]]; [eauto|]. rewrite Hr. eauto.
+    + intros c0 pi0 Hf0 Hc0. destruct (Iser c0 pi0 Hf0 Hc0) as (n0 & v0' & ty0 & m0 & H1 & H2). exists n0, v0', ty0, m0. auto.
   - (* a further spelling of an existing column *)
     destruct (new_pi_fields n c m pi) as (F1 & F2 & F3 & F4).
     assert (Hnc : m <> None -> bytes_eqb n c = false).
@@ -376,6 +386,10 @@ Proof.
       * eauto.
     + intros n' s' [Hs|[= -> <-]]; [apply track_incl; eauto|apply track_sstr_in].
     + intros n' v' [Hs|[= -> ->]]; [eauto|]. rewrite Hr. eauto.
+    + intros c' pi' Hf' Hc'. rewrite Hfind in Hf'. destruct (bytes_eqb c' c) eqn:E.
+      * apply bytes_eqb_eq in E. subst c'. injection Hf' as <-. rewrite F2.
+        destruct (Iser c pi Hf Hc') as (n0 & v0' & ty0 & m0 & H1 & H2). exists n0, v0', ty0, m0. auto.
+      * destruct (Iser c' pi' Hf' Hc') as (n0 & v0' & ty0 & m0 & H1 & H2). exists n0, v0', ty0, m0. auto.
   - (* a new column *)
     destruct (new_pi_fields n c m (mkPI wt s [] dv m)) as (F1 & F2 & F3 & F4). cbn [pi_type pi_default pi_migration] in F1, F3, F4.
     assert (Hfind : forall c', bfind c' (binsert (c, new_pi n c m (mkPI wt s [] dv m)) (ps_props st)) =
@@ -412,12 +426,15 @@ Proof.
       * apply Hss. eauto.
     + intros n' s' [Hs|[= -> <-]]; [apply Hss; eauto|]. apply track_incl. apply track_sstr_in.
     + intros n' v' [Hs|[= -> ->]]; [eauto|]. rewrite Hr. eauto.
+    + intros c' pi' Hf' Hc'. rewrite Hfind in Hf'. destruct (bytes_eqb c' c) eqn:E.
+      * apply bytes_eqb_eq in E. subst c'. injection Hf' as <-. rewrite F2. cbn [pi_ser_name]. exists n, v, ty, m. auto.
+      * destruct (Iser c' pi' Hf' Hc') as (n0 & v0' & ty0 & m0 & H1 & H2). exists n0, v0', ty0, m0. auto.
 Qed.
 
 Lemma pinv_ext (seen seen' : bytes * value -> Prop) st :
   (forall x, seen x <-> seen' x) -> pinv seen st -> pinv seen' st.
 Proof.
-  intros He [Ivis Icol Imk Iname Imig Idss Ivss Ires]. constructor; auto.
+  intros He [Ivis Icol Imk Iname Imig Idss Ivss Ires Iser]. constructor; auto.
   - intros n Hn. destruct (Ivis n Hn) as [v Hv]. exists v. now apply He.
   - intros n v c s ty m Hs. apply Icol. now apply He.
   - intros c pi Hf Hc. destruct (Imk c pi Hf Hc) as (n0 & v0 & s & ty & m & H1 & H2 & H3). exists n0, v0, s, ty, m.
@@ -426,12 +443,13 @@ Proof.
     split; [now apply He|auto].
   - intros n s Hs. apply (Ivss n). now apply He.
   - intros n v Hs. apply Ires. now apply He.
+  - intros c pi Hf Hc. destruct (Iser c pi Hf Hc) as (n0 & v0 & ty & m & H1 & H2). exists n0, v0, ty, m. split; [now apply He|auto].
 Qed.
 
 Lemma pinv_ss_mono (seen : bytes * value -> Prop) ss ss' vis props :
   incl ss ss' -> pinv seen (ss, vis, props) -> pinv seen (ss', vis, props).
 Proof.
-  intros Hi [Ivis Icol Imk Iname Imig Idss Ivss Ires]. constructor; auto.
+  intros Hi [Ivis Icol Imk Iname Imig Idss Ivss Ires Iser]. constructor; auto.
   - intros c pi s Hf Hd. apply Hi. eapply Idss; eauto.
   - intros n s Hs. apply Hi. eapply Ivss; eauto.
 Qed.
@@ -477,7 +495,7 @@ Theorem planned_value_accepted (seen : bytes * value -> Prop) st canon pi ord i 
   val_accepts (pi_type pi) (prop_value p canon pi ord i) = true /\
   (forall s, prop_value p canon pi ord i = VSharedString s -> In s (ps_ss st)).
 Proof.
-  intros [Ivis Icol Imk Iname Imig Idss Ivss Ires] Hal Hall Hok Hf Hord Hi.
+  intros [Ivis Icol Imk Iname Imig Idss Ivss Ires Iser] Hal Hall Hok Hf Hord Hi.
   destruct (bytes_eqb canon NAME) eqn:En.
   { apply bytes_eqb_eq in En. subst canon. destruct Iname as (pn & Hpn & Htn). rewrite Hf in Hpn. injection Hpn as <-.
     unfold prop_value. rewrite bytes_eqb_refl.
@@ -610,6 +628,8 @@ Proof.
     + intros c pi s Hf Hd. cbn [bfind] in Hf. destruct (bytes_eqb c NAME); [|discriminate]. injection Hf as <-. discriminate.
     + intros n s (r & i & [] & _).
     + intros n v (r & i & [] & _).
+    + intros c pi Hf Hc. cbn [bfind] in Hf. destruct (bytes_eqb c NAME) eqn:E; [|discriminate].
+      apply bytes_eqb_eq in E. contradiction.
 Qed.
 
 Lemma class_ti_good d dom st cn : ginv d dom st -> ti_good d dom (ss_sstr st) cn (class_ti d cn st).
@@ -1213,7 +1233,7 @@ Proof.
     - assert (Hne : n <> canon) by now apply bytes_eqb_false_neq.
       destruct (bfind canon (i_props i)) as [v'|] eqn:Ec.
       + exfalso. apply Hne. apply (H1 n canon canon); [eapply haskey_in; eauto|unfold haskey; now rewrite Ec|exact Hsp|now left].
-      + destruct Hinv as [Ivis Icol Imk Iname Imig Idss Ivss Ires]. destruct (Icol n v canon s ty m (Hi _ Hin) Hr) as (pi' & Hf' & _ & Ha). rewrite Hf in Hf'. injection Hf' as <-.
+      + destruct Hinv as [Ivis Icol Imk Iname Imig Idss Ivss Ires Iser]. destruct (Icol n v canon s ty m (Hi _ Hin) Hr) as (pi' & Hf' & _ & Ha). rewrite Hf in Hf'. injection Hf' as <-.
         assert (Hno : In n ord).
         { eapply Permutation_in; [symmetry; exact Hord|]. apply BinTypeInfoFacts.bmem_In. exact (Ha Hne). }
         destruct (find _ ord) as [a|] eqn:Efd.
@@ -1243,7 +1263,7 @@ Theorem planned_default_value (seen : bytes * value -> Prop) st canon pi ord i :
 Proof.
   intros Hinv Hal Hall Hgood Hf Hc Hord Hi Hno.
   assert (En : bytes_eqb canon NAME = false) by now apply bytes_eqb_neq.
-  destruct Hinv as [Ivis Icol Imk Iname Imig Idss Ivss Ires]. destruct (Imk canon pi Hf Hc) as (n0 & v0 & s0 & ty0 & m0 & S0 & R0 & CP0).
+  destruct Hinv as [Ivis Icol Imk Iname Imig Idss Ivss Ires Iser]. destruct (Imk canon pi Hf Hc) as (n0 & v0 & s0 & ty0 & m0 & S0 & R0 & CP0).
   split; [|exists n0, v0, s0, ty0, m0; auto].
   destruct (prop_value_cases p canon pi ord i En) as (raw & -> & [-> |(n & Hn & Hin)]); [reflexivity|]. exfalso.
   assert (Hres : exists s ty m, resolve_prop d class n raw = Ok (RProp canon s ty m)).
@@ -1473,7 +1493,7 @@ Proof.
   { intros x. rewrite Hinsts. split.
     - intros (r' & j & [<-|[]] & Hj & Hx). rewrite Hfi in Hj. now injection Hj as <-.
     - intros Hx. exists r, i. split; [now left|auto]. }
-  destruct P0 as [Ivis Icol Imk Iname Imig Idss Ivss Ires].
+  destruct P0 as [Ivis Icol Imk Iname Imig Idss Ivss Ires Iser].
   unfold inst_ok. apply forallb_forall. intros [n v] Hin. fold cn.
   pose proof (proj2 (Hseen _) Hin) as Hs.
   destruct (Ires n v Hs) as [rr Hr]. unfold pair_ok. cbn [fst snd]. rewrite Hr.
@@ -1583,3 +1603,818 @@ Proof.
       exact (dom_one_spelling_check db_part [i] ltac:(cbn [forallb]; rewrite Hb; reflexivity) i n1 n2 c (or_introl eq_refl) K1 K2 S1 S2).
   - intros i [<-|[<-|[<-|[]]]]; vm_compute; eauto.
 Qed.
+
+(* ========================================================================================== *)
+(* G3, part 1: the column law per wire type, for a column read with canonical type [cty]         *)
+(* ========================================================================================== *)
+(* the value-range side conditions of the column round trips (BinValuesFacts 1-3), and the pairs
+   (wire type, canonical type) the reader has an arm for, as ONE executable predicate per cell *)
+Definition cell_ok (wt : wire_type) (cty : N) (v : value) : bool :=
+  match wt, v with
+  | WBool, VBool _ => N.eqb cty VT_Bool
+  | WInt32, VInt32 z => N.eqb cty VT_Int32 && in_i32 z
+  | WInt64, VInt64 z => N.eqb cty VT_Int64 && in_i64 z
+  | WFloat32, VFloat32 x => N.eqb cty VT_Float32 && f32_ok x
+  | WFloat64, VFloat64 x => N.eqb cty VT_Float64 && f64_ok x
+  | WEnum, VEnum n => N.eqb cty VT_Enum && N.ltb n 4294967296
+  | WString, VString s => ((N.eqb cty VT_Str && utf8_valid s) || N.eqb cty VT_BinaryString) && bstr_ok None s
+  | WString, VBinaryString s => N.eqb cty VT_BinaryString && bstr_ok None s
+  | WVector3, VVector3 p => N.eqb cty VT_Vector3 && vec3_ok p
+  | WVector2, VVector2 p => N.eqb cty VT_Vector2 && vec2_ok p
+  | WColor3, VColor3 r g b => N.eqb cty VT_Color3 && f32_ok r && f32_ok g && f32_ok b
+  | WColor3uint8, VColor3uint8 _ _ _ | WColor3uint8, VColor3 _ _ _ => N.eqb cty VT_Color3 || N.eqb cty VT_Color3uint8
+  | WUDim, VUDim u => N.eqb cty VT_UDim && udim_ok u
+  | WUDim2, VUDim2 x y => N.eqb cty VT_UDim2 && udim_ok x && udim_ok y
+  | WRef, VRef _ => N.eqb cty VT_Ref
+  | WCFrame, VCFrame cf => N.eqb cty VT_CFrame && cframe_ok cf
+  | WBrickColor, VBrickColor n => N.eqb cty VT_BrickColor && N.ltb n 65536 && brick_valid n
+  | WRay, VRay o dd => N.eqb cty VT_Ray && vec3_ok o && vec3_ok dd
+  | WFaces, VFaces n => N.eqb cty VT_Faces && N.ltb n 64
+  | WAxes, VAxes n => N.eqb cty VT_Axes && N.ltb n 8
+  | WNumberRange, VNumberRange lo hi => N.eqb cty VT_NumberRange && f32_ok lo && f32_ok hi
+  | WRect, VRect lo hi => N.eqb cty VT_Rect && vec2_ok lo && vec2_ok hi
+  | WSecurityCapabilities, VSecurityCapabilities n => N.eqb cty VT_SecurityCapabilities && N.ltb n 18446744073709551616
+  | _, _ => false
+  end.
+
+(* normB: what the reader returns for an accepted cell *)
+Definition normB (q : f32 -> N) (rn : N -> N) (wt : wire_type) (cty : N) (v : value) : value :=
+  match v with
+  | VString s => if N.eqb cty VT_BinaryString then VBinaryString s else VString s
+  | VColor3 r g b => match wt with WColor3uint8 => VColor3uint8 (q r) (q g) (q b) | _ => v end
+  | VRef r => VRef (rn r)
+  | VCFrame cf => VCFrame (BinValuesFacts3.norm_cframe cf)
+  | _ => v
+  end.
+
+Lemma homog_ok {A} (C : A -> value) (Q : A -> Prop) vs :
+  (forall v, In v vs -> exists a, v = C a /\ Q a) -> exists xs, vs = List.map C xs /\ Forall Q xs.
+Proof.
+  induction vs as [|v vs IH]; intros H; [exists []; split; [reflexivity|constructor]|].
+  destruct (H v (or_introl eq_refl)) as (a & -> & Ha). destruct IH as (xs & -> & Hxs); [intros w Hw; apply H; now right|].
+  exists (a :: xs). split; [reflexivity|now constructor].
+Qed.
+
+Definition spay (v : value) : bytes := match v with VString s | VBinaryString s => s | _ => [] end.
+
+Section KnownCol.
+Variable c : enc_ctx.
+Variable dc : dec_ctx.
+Hypothesis Hlim : dc_lim dc = None.
+Hypothesis Href : forall r, in_i32 (ref_id c r) = true.
+
+Lemma enc_strs vs : (forall v, In v vs -> exists s, v = VString s \/ v = VBinaryString s) ->
+  enc_col WString c vs = Ok (flat_map w_bstr (List.map spay vs)).
+Proof.
+  intros H. cbn [enc_col].
+  match goal with |- rbind (collect ?f vs) _ = _ => assert (E : collect f vs = Ok (List.map (fun v => w_bstr (spay v)) vs)) end.
+  { induction vs as [|v vs IH]; [reflexivity|]. cbn [collect List.map].
+    destruct (H v (or_introl eq_refl)) as (s & [-> | ->]); cbn [rbind spay]; rewrite IH by (intros w Hw; apply H; now right); reflexivity. }
+  rewrite E. cbn [rbind]. f_equal. rewrite concat_map_flat_map. clear. induction vs; [reflexivity|]. cbn [flat_map List.map]. congruence.
+Qed.
+
+Ltac cell_inv H v Hv := specialize (H v Hv); destruct v; try discriminate H.
+
+Ltac bsplit := repeat match goal with H : (_ && _)%bool = true |- _ => apply andb_true_iff in H; destruct H end;
+               repeat match goal with H : N.ltb _ _ = true |- _ => apply N.ltb_lt in H end.
+
+Theorem known_col_roundtrip wt cty vs :
+  vs <> [] -> Forall (fun v => cell_ok wt cty v = true) vs ->
+  exists b, enc_col wt c vs = Ok b /\
+            dec_col wt cty dc (length vs) (b ++ []) =
+            Ok (List.map (normB (ec_quant c) (fun r => dc_resolve dc (ref_id c r)) wt cty) vs, []).
+Proof.
+  intros Hne HF. rewrite Forall_forall in HF.
+  assert (Hv0 : exists v0, In v0 vs) by (destruct vs; [congruence|eexists; now left]). destruct Hv0 as [v0 Hv0].
+  pose proof (HF v0 Hv0) as H0. clear Hne.
+  destruct wt; try (exfalso; destruct v0; discriminate H0).
+  - (* String-like *)
+    destruct (N.eqb cty VT_BinaryString) eqn:Eb.
+    + apply N.eqb_eq in Eb. subst cty.
+      assert (Hs : forall v, In v vs -> (exists s, v = VString s \/ v = VBinaryString s) /\ bstr_ok (dc_lim dc) (spay v) = true).
+      { intros v Hv. specialize (HF v Hv). rewrite Hlim. destruct v; try discriminate HF; cbn [cell_ok spay] in *; bsplit; eauto. }
+      exists (flat_map w_bstr (List.map spay vs)). split; [apply enc_strs; intros v Hv; apply (Hs v Hv)|].
+      rewrite <- (map_length spay vs), dec_string_as_binary.
+      * f_equal. f_equal. rewrite map_map. apply map_ext_in. intros v Hv. destruct (Hs v Hv) as [(s & [-> | ->]) _]; reflexivity.
+      * apply Forall_forall. intros s Hs'. apply in_map_iff in Hs'. destruct Hs' as (v & <- & Hv). apply (Hs v Hv).
+    + destruct (homog_ok VString (fun s => bstr_ok (dc_lim dc) s = true /\ utf8_valid s = true) vs) as (xs & -> & Hxs).
+      { intros v Hv. specialize (HF v Hv). rewrite Hlim. destruct v; try discriminate HF; cbn [cell_ok] in HF; rewrite Eb in HF.
+        - cbn [andb] in HF. discriminate.
+        - rewrite orb_false_r in HF. bsplit. eauto. }
+      assert (cty = VT_Str) as ->.
+      { destruct v0; try discriminate H0; cbn [cell_ok] in H0; rewrite Eb in H0; [discriminate|].
+        rewrite orb_false_r in H0. bsplit. now apply N.eqb_eq. }
+      rewrite map_map, map_length. cbn [normB]. change (N.eqb VT_Str VT_BinaryString) with false. cbv iota.
+      apply col_roundtrip_string. exact Hxs.
+  - (* Bool *)
+    destruct (homog_ok VBool (fun _ => True) vs) as (xs & -> & _).
+    { intros v Hv. specialize (HF v Hv). destruct v; try discriminate HF. eauto. }
+    assert (cty = VT_Bool) as -> by (destruct v0; try discriminate H0; now apply N.eqb_eq).
+    rewrite map_map, map_length. cbn [normB]. apply col_roundtrip_bool.
+  - (* Int32 *)
+    destruct (homog_ok VInt32 (fun z => in_i32 z = true) vs) as (xs & -> & Hxs).
+    { intros v Hv. specialize (HF v Hv). destruct v; try discriminate HF. cbn [cell_ok] in HF. bsplit. eauto. }
+    assert (cty = VT_Int32) as -> by (destruct v0; try discriminate H0; cbn [cell_ok] in H0; bsplit; now apply N.eqb_eq).
+    rewrite map_map, map_length. cbn [normB]. apply col_roundtrip_int32. exact Hxs.
+  - (* Float32 *)
+    destruct (homog_ok VFloat32 (fun z => f32_ok z = true) vs) as (xs & -> & Hxs).
+    { intros v Hv. specialize (HF v Hv). destruct v; try discriminate HF. cbn [cell_ok] in HF. bsplit. eauto. }
+    assert (cty = VT_Float32) as -> by (destruct v0; try discriminate H0; cbn [cell_ok] in H0; bsplit; now apply N.eqb_eq).
+    rewrite map_map, map_length. cbn [normB]. apply col_roundtrip_float32. exact Hxs.
+  - (* Float64 *)
+    destruct (homog_ok VFloat64 (fun z => f64_ok z = true) vs) as (xs & -> & Hxs).
+    { intros v Hv. specialize (HF v Hv). destruct v; try discriminate HF. cbn [cell_ok] in HF. bsplit. eauto. }
+    assert (cty = VT_Float64) as -> by (destruct v0; try discriminate H0; cbn [cell_ok] in H0; bsplit; now apply N.eqb_eq).
+    rewrite map_map, map_length. cbn [normB]. apply col_roundtrip_float64. exact Hxs.
+  - (* UDim *)
+    destruct (homog_ok VUDim (fun u => f32_ok (ud_scale u) = true /\ in_i32 (ud_offset u) = true) vs) as (xs & -> & Hxs).
+    { intros v Hv. specialize (HF v Hv). destruct v; try discriminate HF. cbn [cell_ok] in HF. unfold udim_ok in HF. bsplit. eauto. }
+    assert (cty = VT_UDim) as -> by (destruct v0; try discriminate H0; cbn [cell_ok] in H0; bsplit; now apply N.eqb_eq).
+    rewrite map_map, map_length. cbn [normB]. apply col_roundtrip_udim. exact Hxs.
+  - (* UDim2 *)
+    destruct (homog_ok (fun p => VUDim2 (fst p) (snd p)) (fun p => udim_ok (fst p) = true /\ udim_ok (snd p) = true) vs) as (xs & -> & Hxs).
+    { intros v Hv. specialize (HF v Hv). destruct v; try discriminate HF. cbn [cell_ok] in HF. bsplit. exists (x, y). auto. }
+    assert (cty = VT_UDim2) as -> by (destruct v0; try discriminate H0; cbn [cell_ok] in H0; bsplit; now apply N.eqb_eq).
+    rewrite map_map, map_length. cbn [normB]. apply col_roundtrip_udim2. exact Hxs.
+  - (* Ray *)
+    destruct (homog_ok (fun q => VRay (fst q) (snd q)) (fun q => vec3_ok (fst q) = true /\ vec3_ok (snd q) = true) vs) as (xs & -> & Hxs).
+    { intros v Hv. specialize (HF v Hv). destruct v; try discriminate HF. cbn [cell_ok] in HF. bsplit. exists (origin, direction). auto. }
+    assert (cty = VT_Ray) as -> by (destruct v0; try discriminate H0; cbn [cell_ok] in H0; bsplit; now apply N.eqb_eq).
+    rewrite map_map, map_length. cbn [normB]. apply col_roundtrip_ray. exact Hxs.
+  - (* Faces *)
+    destruct (homog_ok VFaces (fun n => n < 64) vs) as (xs & -> & Hxs).
+    { intros v Hv. specialize (HF v Hv). destruct v; try discriminate HF. cbn [cell_ok] in HF. bsplit. eauto. }
+    assert (cty = VT_Faces) as -> by (destruct v0; try discriminate H0; cbn [cell_ok] in H0; bsplit; now apply N.eqb_eq).
+    rewrite map_map, map_length. cbn [normB]. apply col_roundtrip_faces. exact Hxs.
+  - (* Axes *)
+    destruct (homog_ok VAxes (fun n => n < 8) vs) as (xs & -> & Hxs).
+    { intros v Hv. specialize (HF v Hv). destruct v; try discriminate HF. cbn [cell_ok] in HF. bsplit. eauto. }
+    assert (cty = VT_Axes) as -> by (destruct v0; try discriminate H0; cbn [cell_ok] in H0; bsplit; now apply N.eqb_eq).
+    rewrite map_map, map_length. cbn [normB]. apply col_roundtrip_axes. exact Hxs.
+  - (* BrickColor *)
+    destruct (homog_ok VBrickColor (fun n => n < 65536 /\ brick_valid n = true) vs) as (xs & -> & Hxs).
+    { intros v Hv. specialize (HF v Hv). destruct v; try discriminate HF. cbn [cell_ok] in HF. bsplit. eauto. }
+    assert (cty = VT_BrickColor) as -> by (destruct v0; try discriminate H0; cbn [cell_ok] in H0; bsplit; now apply N.eqb_eq).
+    rewrite map_map, map_length. cbn [normB]. apply col_roundtrip_brickcolor. exact Hxs.
+  - (* Color3 *)
+    destruct (homog_ok (fun p => VColor3 (fst (fst p)) (snd (fst p)) (snd p))
+                (fun p => f32_ok (fst (fst p)) = true /\ f32_ok (snd (fst p)) = true /\ f32_ok (snd p) = true) vs) as (xs & -> & Hxs).
+    { intros v Hv. specialize (HF v Hv). destruct v; try discriminate HF. cbn [cell_ok] in HF. bsplit. exists (r, g, b). auto. }
+    assert (cty = VT_Color3) as -> by (destruct v0; try discriminate H0; cbn [cell_ok] in H0; bsplit; now apply N.eqb_eq).
+    rewrite map_map, map_length. cbn [normB]. apply col_roundtrip_color3. exact Hxs.
+  - (* Vector2 *)
+    destruct (homog_ok VVector2 (fun z => vec2_ok z = true) vs) as (xs & -> & Hxs).
+    { intros v Hv. specialize (HF v Hv). destruct v; try discriminate HF. cbn [cell_ok] in HF. bsplit. eauto. }
+    assert (cty = VT_Vector2) as -> by (destruct v0; try discriminate H0; cbn [cell_ok] in H0; bsplit; now apply N.eqb_eq).
+    rewrite map_map, map_length. cbn [normB]. apply col_roundtrip_vector2. exact Hxs.
+  - (* Vector3 *)
+    destruct (homog_ok VVector3 (fun z => vec3_ok z = true) vs) as (xs & -> & Hxs).
+    { intros v Hv. specialize (HF v Hv). destruct v; try discriminate HF. cbn [cell_ok] in HF. bsplit. eauto. }
+    assert (cty = VT_Vector3) as -> by (destruct v0; try discriminate H0; cbn [cell_ok] in H0; bsplit; now apply N.eqb_eq).
+    rewrite map_map, map_length. cbn [normB]. apply col_roundtrip_vector3. exact Hxs.
+  - (* CFrame *)
+    destruct (homog_ok VCFrame (fun z => cframe_ok z = true) vs) as (xs & -> & Hxs).
+    { intros v Hv. specialize (HF v Hv). destruct v; try discriminate HF. cbn [cell_ok] in HF. bsplit. eauto. }
+    assert (cty = VT_CFrame) as -> by (destruct v0; try discriminate H0; cbn [cell_ok] in H0; bsplit; now apply N.eqb_eq).
+    rewrite map_map, map_length. cbn [normB]. apply BinValuesFacts3.col_roundtrip_cframe. exact Hxs.
+  - (* Enum *)
+    destruct (homog_ok VEnum (fun n => n < 2 ^ 32) vs) as (xs & -> & Hxs).
+    { intros v Hv. specialize (HF v Hv). destruct v; try discriminate HF. cbn [cell_ok] in HF. bsplit. eauto. }
+    assert (cty = VT_Enum) as -> by (destruct v0; try discriminate H0; cbn [cell_ok] in H0; bsplit; now apply N.eqb_eq).
+    rewrite map_map, map_length. cbn [normB]. apply col_roundtrip_enum. exact Hxs.
+  - (* Ref *)
+    destruct (homog_ok VRef (fun _ => True) vs) as (xs & -> & _).
+    { intros v Hv. specialize (HF v Hv). destruct v; try discriminate HF. eauto. }
+    assert (cty = VT_Ref) as -> by (destruct v0; try discriminate H0; now apply N.eqb_eq).
+    rewrite map_map, map_length. cbn [normB]. apply col_roundtrip_ref. apply Forall_forall. intros r _. apply Href.
+  - (* NumberRange *)
+    destruct (homog_ok (fun q => VNumberRange (fst q) (snd q)) (fun q => f32_ok (fst q) = true /\ f32_ok (snd q) = true) vs) as (xs & -> & Hxs).
+    { intros v Hv. specialize (HF v Hv). destruct v; try discriminate HF. cbn [cell_ok] in HF. bsplit. exists (lo, hi). auto. }
+    assert (cty = VT_NumberRange) as -> by (destruct v0; try discriminate H0; cbn [cell_ok] in H0; bsplit; now apply N.eqb_eq).
+    rewrite map_map, map_length. cbn [normB]. apply col_roundtrip_numberrange. exact Hxs.
+  - (* Rect *)
+    destruct (homog_ok (fun q => VRect (fst q) (snd q)) (fun q => vec2_ok (fst q) = true /\ vec2_ok (snd q) = true) vs) as (xs & -> & Hxs).
+    { intros v Hv. specialize (HF v Hv). destruct v; try discriminate HF. cbn [cell_ok] in HF. bsplit. exists (lo, hi). auto. }
+    assert (cty = VT_Rect) as -> by (destruct v0; try discriminate H0; cbn [cell_ok] in H0; bsplit; now apply N.eqb_eq).
+    rewrite map_map, map_length. cbn [normB]. apply col_roundtrip_rect. exact Hxs.
+  - (* Color3uint8, also Color3 values (quantised) *)
+    destruct (homog_ok c3_value (fun _ => True) vs) as (xs & -> & _).
+    { intros v Hv. specialize (HF v Hv). destruct v; try discriminate HF; [exists (C3f r g b)|exists (C3u r g b)]; auto. }
+    assert (Hc : cty = VT_Color3 \/ cty = VT_Color3uint8).
+    { destruct v0; try discriminate H0; cbn [cell_ok] in H0; apply orb_true_iff in H0; destruct H0 as [H0|H0]; apply N.eqb_eq in H0; auto. }
+    rewrite map_map, map_length.
+    destruct (col_roundtrip_color3uint8_mixed c dc cty xs [] Hc) as (b & Hb1 & Hb2). exists b. split; [exact Hb1|]. rewrite Hb2.
+    f_equal. f_equal. apply map_ext. intros [r g b0|r g b0]; reflexivity.
+  - (* Int64 *)
+    destruct (homog_ok VInt64 (fun z => in_i64 z = true) vs) as (xs & -> & Hxs).
+    { intros v Hv. specialize (HF v Hv). destruct v; try discriminate HF. cbn [cell_ok] in HF. bsplit. eauto. }
+    assert (cty = VT_Int64) as -> by (destruct v0; try discriminate H0; cbn [cell_ok] in H0; bsplit; now apply N.eqb_eq).
+    rewrite map_map, map_length. cbn [normB]. apply col_roundtrip_int64. exact Hxs.
+  - (* SecurityCapabilities *)
+    destruct (homog_ok VSecurityCapabilities (fun n => n < 2 ^ 64) vs) as (xs & -> & Hxs).
+    { intros v Hv. specialize (HF v Hv). destruct v; try discriminate HF. cbn [cell_ok] in HF. bsplit. eauto. }
+    assert (cty = VT_SecurityCapabilities) as -> by (destruct v0; try discriminate H0; cbn [cell_ok] in H0; bsplit; now apply N.eqb_eq).
+    rewrite map_map, map_length. cbn [normB]. apply col_roundtrip_seccap. exact Hxs.
+Qed.
+End KnownCol.
+
+(* ========================================================================================== *)
+(* G3, part 2: every cell of every planned column meets the column law's side conditions        *)
+(* ========================================================================================== *)
+(* ONE executable predicate on a (name, value) pair of an instance of [class]: the value written for it (after the
+   spelling's own migration) and the default of its column are cells the reader has an arm for, in range; the reader's
+   find_canonical_property maps the serialized name back to the canonical name, without migration; the serialized
+   name is a short UTF-8 string other than "Name" *)
+Definition pair_cells_ok (d : db) (ep : enc_params) (class : bytes) (pv : bytes * value) : bool :=
+  match resolve_prop d class (fst pv) (snd pv) with
+  | Ok RSkip => true
+  | Ok (RProp c s ty m) =>
+      if bytes_eqb c NAME then match m with None => true | Some _ => false end
+      else
+      match col_plan d (get_class d (string_of_bytes class)) c ty with
+      | Ok (dv, wt) =>
+          match find_canonical_property d wt class s with
+          | Ok (Some (c', cty, None)) =>
+              bytes_eqb c' c && cell_ok wt cty (migv ep m (snd pv)) && cell_ok wt cty dv &&
+              match m with Some op => negb (type_accepts wt (mig_in op)) | None => true end &&
+              utf8_valid s && N.ltb (N.of_nat (length s)) 4294967296 && negb (bytes_eqb s NAME)
+          | _ => false
+          end
+      | _ => false
+      end
+  | _ => false
+  end.
+
+Lemma cell_ok_val wt cty v : cell_ok wt cty v = true -> val_accepts wt v = true.
+Proof. destruct wt, v; cbn [cell_ok]; try discriminate; reflexivity. Qed.
+
+Lemma pair_cells_pair_ok d ep class pv : pair_cells_ok d ep class pv = true -> pair_ok d ep class pv = true.
+Proof.
+  unfold pair_cells_ok, pair_ok. destruct (resolve_prop d class (fst pv) (snd pv)) as [[|c s ty m]| | |]; try discriminate; [reflexivity|].
+  destruct (bytes_eqb c NAME); [reflexivity|]. cbn [orb].
+  destruct (col_plan d (get_class d (string_of_bytes class)) c ty) as [[dv wt]| | |]; try discriminate.
+  destruct (find_canonical_property d wt class s) as [[[[c' cty] [mg|]]|]| | |]; try discriminate.
+  intros H. repeat (apply andb_true_iff in H; destruct H as [H ?]). eapply cell_ok_val; eauto.
+Qed.
+
+Lemma migrate_in ft bt op v y : migrate ft bt op v = Some y -> vtype v = mig_in op.
+Proof. destruct op, v; cbn [migrate]; try discriminate; reflexivity. Qed.
+
+Section Cells.
+Variables (d : db) (class : bytes) (cls : option cdesc) (All : list (bytes * value)).
+Hypothesis SA : spellings_agree d class All.
+Hypothesis MA : migrations_agree d class All.
+Variable p : enc_params.
+Hypothesis Hcls : cls = get_class d (string_of_bytes class).
+Hypothesis Hgood : class_good d class.
+
+Theorem planned_cell_ok (seen : bytes * value -> Prop) st canon pi ord i :
+  pinv d class cls seen st -> props_alias_inv d class (ps_props st) ->
+  (forall x, seen x -> In x All) -> (forall x, seen x -> pair_cells_ok d p class x = true) ->
+  bfind canon (ps_props st) = Some pi -> canon <> NAME -> incl ord (pi_aliases pi) ->
+  (forall x, In x (i_props i) -> seen x) ->
+  exists cty, find_canonical_property d (pi_type pi) class (pi_ser_name pi) = Ok (Some (canon, cty, None)) /\
+    cell_ok (pi_type pi) cty (prop_value p canon pi ord i) = true /\
+    utf8_valid (pi_ser_name pi) = true /\ N.of_nat (length (pi_ser_name pi)) < 2 ^ 32 /\ pi_ser_name pi <> NAME /\
+    (forall n v s ty m, In (n, v) (i_props i) -> resolve_prop d class n v = Ok (RProp canon s ty m) ->
+       migv p (pi_migration pi) v = migv p m v).
+Proof.
+  intros [Ivis Icol Imk Iname Imig Idss Ivss Ires Iser] Hal Hall Hok Hf Hc Hord Hi.
+  assert (TA : types_agree d class All) by now apply spellings_types_agree.
+  assert (En : bytes_eqb canon NAME = false) by now apply bytes_eqb_neq.
+  destruct (Imk canon pi Hf Hc) as (n0 & v0 & s0 & ty0 & m0 & S0 & R0 & CP0). rewrite Hcls in CP0.
+  (* what the check says of a seen pair that names this column *)
+  assert (K : forall n v s ty m, seen (n, v) -> resolve_prop d class n v = Ok (RProp canon s ty m) ->
+              s = pi_ser_name pi /\ ty = ty0 /\
+              exists cty, find_canonical_property d (pi_type pi) class (pi_ser_name pi) = Ok (Some (canon, cty, None)) /\
+                cell_ok (pi_type pi) cty (migv p m v) = true /\ cell_ok (pi_type pi) cty (pi_default pi) = true /\
+                (forall op, m = Some op -> type_accepts (pi_type pi) (mig_in op) = false) /\
+                utf8_valid (pi_ser_name pi) = true /\ N.of_nat (length (pi_ser_name pi)) < 2 ^ 32 /\ pi_ser_name pi <> NAME).
+  { intros n v s ty m Hs Hr.
+    destruct (Iser canon pi Hf Hc) as (n1 & v1 & ty1 & m1 & S1 & R1).
+    destruct (SA n v n1 v1 canon s ty m (pi_ser_name pi) ty1 m1 (Hall _ Hs) (Hall _ S1) Hr R1) as [-> _].
+    assert (ty = ty0) by (apply (TA n v n0 v0 canon (pi_ser_name pi) ty m s0 ty0 m0); auto). subst ty.
+    split; [reflexivity|]. split; [reflexivity|].
+    pose proof (Hok _ Hs) as Hp. unfold pair_cells_ok in Hp. cbn [fst snd] in Hp. rewrite Hr, En, CP0 in Hp.
+    destruct (find_canonical_property d (pi_type pi) class (pi_ser_name pi)) as [[[[c' cty] [mg|]]|]| | |]; try discriminate.
+    repeat (apply andb_true_iff in Hp; let H := fresh "Hq" in destruct Hp as [Hp H]).
+    apply bytes_eqb_eq in Hp. subst c'. exists cty. split; [reflexivity|]. split; [assumption|]. split; [assumption|].
+    split; [|split; [assumption|split; [now apply N.ltb_lt|apply bytes_eqb_false_neq; now apply negb_true_iff]]].
+    intros op ->. now apply negb_true_iff. }
+  destruct (K n0 v0 s0 ty0 m0 S0 R0) as (_ & _ & cty & Hfc & _ & Hdv & _ & Hu & Hl & Hnn).
+  exists cty. split; [exact Hfc|]. cut (cell_ok (pi_type pi) cty (prop_value p canon pi ord i) = true /\
+    (forall n v s ty m, In (n, v) (i_props i) -> resolve_prop d class n v = Ok (RProp canon s ty m) ->
+       migv p (pi_migration pi) v = migv p m v)); [intros [X Y]; auto 10|].
+  assert (Kc : forall n v s ty m, seen (n, v) -> resolve_prop d class n v = Ok (RProp canon s ty m) ->
+               cell_ok (pi_type pi) cty (migv p m v) = true /\ (forall op, m = Some op -> type_accepts (pi_type pi) (mig_in op) = false)).
+  { intros n v s ty m Hs Hr. destruct (K n v s ty m Hs Hr) as (_ & _ & cty' & Hfc' & H1 & _ & H2 & _).
+    rewrite Hfc in Hfc'. injection Hfc' as <-. auto. }
+  split; cycle 1.
+  { intros n v s ty m Hin Hr. pose proof (Hi _ Hin) as Hs. destruct (Kc n v s ty m Hs Hr) as [Hcell _].
+    destruct (pi_migration pi) as [op|] eqn:EM.
+    - destruct (Imig canon pi op Hf EM) as (n2 & v2 & s2 & ty2 & S2 & R2).
+      destruct (Kc n2 v2 s2 ty2 (Some op) S2 R2) as [_ Hmi]. specialize (Hmi op eq_refl).
+      destruct m as [op'|].
+      + assert (op' = op) by (apply (proj1 (MA n v n2 v2 canon s ty (Some op') s2 ty2 (Some op) (Hall _ Hs) (Hall _ S2) Hr R2)); reflexivity).
+        now subst op'.
+      + cbn [migv] in Hcell |- *. destruct (migrate (ep_font p) (ep_brick p) op v) as [y|] eqn:Em; [|reflexivity]. exfalso.
+        apply migrate_in in Em. apply cell_ok_val, val_accepts_type in Hcell. rewrite Em in Hcell. congruence.
+    - destruct m as [op'|]; [|reflexivity]. exfalso.
+      destruct (Icol n v canon s ty (Some op') Hs Hr) as (pi' & Hf' & Hm' & _). rewrite Hf in Hf'. injection Hf' as <-.
+      apply Hm'; [discriminate|exact EM]. }
+  destruct (prop_value_cases p canon pi ord i En) as (raw & -> & Hraw).
+  assert (Hown : forall n, (n = canon \/ In n ord) -> In (n, raw) (i_props i) ->
+                 exists s m, seen (n, raw) /\ resolve_prop d class n raw = Ok (RProp canon s ty0 m)).
+  { intros n Hn Hin. pose proof (Hi _ Hin) as Hs.
+    assert (Hres : exists s ty m, resolve_prop d class n raw = Ok (RProp canon s ty m)).
+    { destruct Hn as [-> |Hn].
+      - exact (cg_self d class Hgood n0 v0 canon s0 ty0 m0 raw R0).
+      - destruct (Hal canon pi n (bfind_in _ _ _ Hf) (Hord _ Hn)) as (v & s & t & m & Hr).
+        destruct (resolve_value_indep d class n v raw) as [E|[E1 E2]].
+        + rewrite <- E. eauto.
+        + rewrite Hr in E1. injection E1 as -> _ _ _. eauto. }
+    destruct Hres as (s & ty & m & Hr). exists s, m. split; [exact Hs|].
+    assert (ty = ty0) by (apply (TA n raw n0 v0 canon s ty m s0 ty0 m0); auto). now subst ty. }
+  unfold migv at 1. destruct (pi_migration pi) as [op|] eqn:EM.
+  - destruct (Imig canon pi op Hf EM) as (n2 & v2 & s2 & ty2 & S2 & R2).
+    destruct (Kc n2 v2 s2 ty2 (Some op) S2 R2) as [_ Hmi]. specialize (Hmi op eq_refl).
+    assert (Hno : forall v, cell_ok (pi_type pi) cty v = true -> migrate (ep_font p) (ep_brick p) op v = None).
+    { intros v Hv. destruct (migrate (ep_font p) (ep_brick p) op v) as [y|] eqn:Em; [|reflexivity]. exfalso.
+      apply migrate_in in Em. apply cell_ok_val, val_accepts_type in Hv. rewrite Em in Hv. congruence. }
+    destruct Hraw as [-> |(n & Hn & Hin)].
+    + now rewrite (Hno _ Hdv).
+    + destruct (Hown n Hn Hin) as (s & m & Hs & Hr). destruct (Kc n raw s ty0 m Hs Hr) as [Hcell _].
+      destruct m as [op'|].
+      * assert (op' = op) by (apply (proj1 (MA n raw n2 v2 canon s ty0 (Some op') s2 ty2 (Some op) (Hall _ Hs) (Hall _ S2) Hr R2)); reflexivity).
+        subst op'. exact Hcell.
+      * cbn [migv] in Hcell. now rewrite (Hno _ Hcell).
+  - destruct Hraw as [-> |(n & Hn & Hin)]; [exact Hdv|].
+    destruct (Hown n Hn Hin) as (s & m & Hs & Hr). destruct (Kc n raw s ty0 m Hs Hr) as [Hcell _].
+    destruct m as [op'|]; [|exact Hcell].
+    destruct (Icol n raw canon s ty0 (Some op') Hs Hr) as (pi' & Hf' & Hm' & _). rewrite Hf in Hf'. injection Hf' as <-.
+    exfalso. apply Hm'; [discriminate|exact EM].
+Qed.
+End Cells.
+
+(* ========================================================================================== *)
+(* G3, part 3: the whole DOM                                                                    *)
+(* ========================================================================================== *)
+Definition dom_values_ok (d : db) (ep : enc_params) (dom : cdom) : bool :=
+  forallb (fun i => forallb (pair_cells_ok d ep (i_class i)) (i_props i)) dom.
+Definition dom_spellings_agree (d : db) (dom : cdom) : Prop :=
+  forall cn, spellings_agree d cn (class_pairs dom cn) /\ migrations_agree d cn (class_pairs dom cn).
+
+Lemma dom_spellings_types d dom : dom_spellings_agree d dom -> dom_types_agree d dom.
+Proof. intros H cn. destruct (H cn) as [S M]. split; [now apply spellings_types_agree|exact M]. Qed.
+
+Lemma dom_values_inst_ok d ep dom : dom_values_ok d ep dom = true -> forall i, In i dom -> inst_ok d ep i = true.
+Proof.
+  intros H i Hi. unfold dom_values_ok in H. rewrite forallb_forall in H. specialize (H i Hi). unfold inst_ok.
+  rewrite forallb_forall in H |- *. intros x Hx. apply pair_cells_pair_ok. auto.
+Qed.
+
+(* every column other than Name: the reader's back-lookup of the serialized name, the cells, the serialized name *)
+Theorem known_columns_cells d ep dom ts st :
+  enc_ready d ep dom ts -> dom_spellings_agree d dom -> (forall i, In i dom -> class_good d (i_class i)) ->
+  dom_values_ok d ep dom = true ->
+  add_instances d ep dom (List.map root ts) = Ok st ->
+  forall cn ti canon pi, In (cn, ti) (ss_types st) -> In (canon, pi) (ti_props ti) ->
+    (canon <> NAME ->
+     exists cty, find_canonical_property d (pi_type pi) cn (pi_ser_name pi) = Ok (Some (canon, cty, None)) /\
+       (forall r i, In r (ti_instances ti) -> find_inst dom r = Some i ->
+          cell_ok (pi_type pi) cty (prop_value ep canon pi (ep_order ep (pi_aliases pi)) i) = true /\
+          (forall n v s ty m, In (n, v) (i_props i) -> resolve_prop d cn n v = Ok (RProp canon s ty m) ->
+             migv ep (pi_migration pi) v = migv ep m v)) /\
+       utf8_valid (pi_ser_name pi) = true /\ N.of_nat (length (pi_ser_name pi)) < 2 ^ 32 /\ pi_ser_name pi <> NAME) /\
+    (canon = NAME -> pi_migration pi = None).
+Proof.
+  intros Hr HS Hgood Hvals Hst cn ti canon pi Hct Hcp.
+  pose proof (dom_spellings_types d dom HS) as HA. pose proof (dom_values_inst_ok d ep dom Hvals) as Hok.
+  destruct (add_instances_total d ep dom ts Hr HA Hok) as (st' & st0 & Hadd & Hrel & Hndr & Hinv & Hg0 & Hty & Hperm).
+  rewrite Hst in Hadd. injection Hadd as <-.
+  assert (Hb : bfind cn (ss_types st0) = Some ti).
+  { rewrite <- Hty. apply in_bfind; [|exact Hct]. apply sorted_NoDup. exact (inv_sorted _ _ Hinv). }
+  destruct (proj1 Hg0 cn ti Hb) as (C0 & A0 & M0 & P0 & S0).
+  assert (Hbp : bfind canon (ti_props ti) = Some pi) by (apply in_bfind; [apply sorted_NoDup; exact S0|exact Hcp]).
+  destruct (HS cn) as [SA MA].
+  assert (Hseen : forall x, seen_of dom (ti_instances ti) x -> In x (class_pairs dom cn) /\ pair_cells_ok d ep cn x = true).
+  { intros x (r' & j & Hr' & Hj & Hx). pose proof (BinTypeInfoFacts.find_inst_in _ _ _ Hj) as Hjd. pose proof (M0 r' j Hr' Hj) as Hc. split.
+    - eapply in_class_pairs; eauto.
+    - unfold dom_values_ok in Hvals. rewrite forallb_forall in Hvals. specialize (Hvals j Hjd). rewrite forallb_forall in Hvals.
+      rewrite <- Hc. auto. }
+  (* the class has an instance *)
+  destruct (ti_instances ti) as [|r0 rs0] eqn:Eti; [now destruct (inv_nonempty _ _ Hinv cn ti Hct)|].
+  assert (Hr0 : In r0 (ti_instances ti)) by (rewrite Eti; now left). rewrite <- Eti in *.
+  assert (Hrel0 : In r0 (ss_relevant st)).
+  { rewrite (inv_insts _ _ Hinv cn ti Hct) in Hr0. apply filter_In in Hr0. tauto. }
+  destruct (find_inst dom r0) as [i0|] eqn:Hfi0; [|now destruct (inv_found _ _ Hinv r0 Hrel0)].
+  assert (Hgcn : class_good d cn).
+  { rewrite <- (M0 r0 i0 Hr0 Hfi0). apply Hgood. eapply BinTypeInfoFacts.find_inst_in; eauto. }
+  assert (Hcell : forall r i, In r (ti_instances ti) -> find_inst dom r = Some i -> canon <> NAME ->
+            exists cty, find_canonical_property d (pi_type pi) cn (pi_ser_name pi) = Ok (Some (canon, cty, None)) /\
+              cell_ok (pi_type pi) cty (prop_value ep canon pi (ep_order ep (pi_aliases pi)) i) = true /\
+              utf8_valid (pi_ser_name pi) = true /\ N.of_nat (length (pi_ser_name pi)) < 2 ^ 32 /\ pi_ser_name pi <> NAME /\
+              (forall n v s ty m, In (n, v) (i_props i) -> resolve_prop d cn n v = Ok (RProp canon s ty m) ->
+                 migv ep (pi_migration pi) v = migv ep m v)).
+  { intros r i Hri Hfi Hc.
+    eapply (planned_cell_ok d cn (ti_class ti) (class_pairs dom cn) SA MA ep C0 Hgcn (seen_of dom (ti_instances ti))
+              (ss_sstr st0, ti_visited ti, ti_props ti)); eauto.
+    - intros x Hx. apply (Hseen x Hx).
+    - intros x Hx. apply (Hseen x Hx).
+    - intros a Ha. eapply Permutation_in; [apply (er_order _ _ _ _ Hr)|exact Ha].
+    - intros x Hx. exists r, i. auto. }
+  split.
+  - intros Hc. destruct (Hcell r0 i0 Hr0 Hfi0 Hc) as (cty & Hfc & _ & Hu & Hl & Hn & _). exists cty. split; [exact Hfc|]. split; [|auto].
+    intros r i Hri Hfi. destruct (Hcell r i Hri Hfi Hc) as (cty' & Hfc' & Hcl & _ & _ & _ & Hmg). rewrite Hfc in Hfc'. injection Hfc' as <-. auto.
+  - intros ->. destruct P0 as [Ivis Icol Imk Iname Imig Idss Ivss Ires Iser].
+    destruct (pi_migration pi) as [op|] eqn:EM; [|reflexivity]. exfalso.
+    destruct (Imig NAME pi op Hbp EM) as (n & v & s & ty & Hs & Hres). destruct (Hseen _ Hs) as [_ Hp].
+    unfold pair_cells_ok in Hp. cbn [fst snd] in Hp. rewrite Hres, bytes_eqb_refl in Hp. discriminate.
+Qed.
+
+(* ---- the column law of a column of a database-known (or unknown) property, from the cells ---- *)
+Definition cty_of (d : db) (x : BinRoundTrip.column) : N :=
+  match find_canonical_property d (pi_type (snd (snd x))) (fst (fst x)) (pi_ser_name (snd (snd x))) with
+  | Ok (Some (_, cty, _)) => cty
+  | _ => 0
+  end.
+(* what the reader holds for a column: the canonical name, no migration, normB of every written value *)
+Definition known_read (d : db) (ep : enc_params) (dom : cdom) (st : ser_state) : BinRoundTrip.column -> BinRoundTrip.col_read :=
+  fun x => Some (fst (snd x), None,
+                 List.map (normB (ep_quant ep) (BinRoundTrip.ref_new st) (pi_type (snd (snd x))) (cty_of d x))
+                          (BinRoundTrip.col_values ep dom x)).
+
+Lemma known_col_law d ep p dom ts st (x : BinRoundTrip.column) cty :
+  add_instances d ep dom (List.map root ts) = Ok st -> NoDup (ss_relevant st) ->
+  (Z.of_nat (length (ss_relevant st)) <= 2147483647)%Z -> dp_lim p = None ->
+  find_canonical_property d (pi_type (snd (snd x))) (fst (fst x)) (pi_ser_name (snd (snd x))) = Ok (Some (fst (snd x), cty, None)) ->
+  BinRoundTrip.col_values ep dom x <> [] ->
+  Forall (fun v => cell_ok (pi_type (snd (snd x))) cty v = true) (BinRoundTrip.col_values ep dom x) ->
+  BinRoundTrip.col_law d ep p dom st (BinRoundTrip.stI_of st) x (known_read d ep dom st x).
+Proof.
+  intros Hst Hndr Hlen Hlim Hfc Hne HF. unfold BinRoundTrip.col_law, known_read. cbv zeta.
+  assert (Ec : cty_of d x = cty) by (unfold cty_of; now rewrite Hfc). rewrite Ec.
+  exists cty. split; [exact Hfc|]. intros ds Hsk.
+  destruct (known_col_roundtrip (enc_ctx_of ep st) (BinChunkFacts.prop_dctx p ds) Hlim
+              (fun r => BinRoundTrip.fz_range st r Hlen) (pi_type (snd (snd x))) cty _ Hne HF) as (b & Hb1 & Hb2).
+  exists b. split; [exact Hb1|]. rewrite Hb2. f_equal. f_equal. apply map_ext. intros v.
+  destruct v; try reflexivity. cbn [normB]. f_equal.
+  apply (BinRoundTrip.resolve_ref d ep p dom ts st ds r Hst Hndr Hsk).
+Qed.
+
+(* the property list the reader collects for the written instance r *)
+Definition known_props (d : db) (ep : enc_params) (dom : cdom) (st : ser_state) (c : bytes) (ti : type_info) (r : N)
+  : list (bytes * value) :=
+  List.map (fun cp => (fst cp,
+                       normB (ep_quant ep) (BinRoundTrip.ref_new st) (pi_type (snd cp)) (cty_of d (c, ti, cp))
+                             (prop_value ep (fst cp) (snd cp) (ep_order ep (pi_aliases (snd cp))) (BinRoundTrip.src dom r))))
+           (filter (fun cp => negb (bytes_eqb (fst cp) NAME)) (ti_props ti)).
+
+Lemma read_props_known p d ep dom st c ti k r :
+  nth_error (ti_instances ti) k = Some r ->
+  BinRoundTrip.read_props p (known_read d ep dom st) (c, ti) k = known_props d ep dom st c ti r.
+Proof.
+  intros Hk. unfold BinRoundTrip.read_props, known_props. cbn [snd].
+  assert (G : forall l acc, fold_left (BinRoundTrip.col_props p (known_read d ep dom st) (c, ti) k) l acc
+              = acc ++ List.map (fun cp => (fst cp,
+                                     normB (ep_quant ep) (BinRoundTrip.ref_new st) (pi_type (snd cp)) (cty_of d (c, ti, cp))
+                                           (prop_value ep (fst cp) (snd cp) (ep_order ep (pi_aliases (snd cp))) (BinRoundTrip.src dom r))))
+                               (filter (fun cp => negb (bytes_eqb (fst cp) NAME)) l)).
+  { induction l as [|[canon pi] l IH]; intros acc; [now rewrite app_nil_r|]. cbn [fold_left filter]. rewrite IH.
+    unfold BinRoundTrip.col_props at 1. cbn [fst snd]. destruct (bytes_eqb canon NAME); cbn [negb]; [reflexivity|].
+    unfold known_read at 1. cbn [fst snd]. cbv iota beta.
+    assert (Hn : nth_error (List.map (normB (ep_quant ep) (BinRoundTrip.ref_new st) (pi_type pi) (cty_of d (c, ti, (canon, pi))))
+                                     (BinRoundTrip.col_values ep dom (c, ti, (canon, pi)))) k
+                 = Some (normB (ep_quant ep) (BinRoundTrip.ref_new st) (pi_type pi) (cty_of d (c, ti, (canon, pi)))
+                               (prop_value ep canon pi (ep_order ep (pi_aliases pi)) (BinRoundTrip.src dom r)))).
+    { unfold BinRoundTrip.col_values. apply map_nth_error. apply map_nth_error. now apply map_nth_error. }
+    rewrite Hn. cbn [BinRoundTrip.add_prop List.map]. now rewrite <- app_assoc. }
+  apply (G (ti_props ti) []).
+Qed.
+
+Lemma bfind_bremove' {V} k k' (m : list (bytes * V)) : bfind k (bremove k' m) = if bytes_eqb k k' then None else bfind k m.
+Proof.
+  induction m as [|[k1 v1] m IH]; cbn [bremove bfind]; [now destruct (bytes_eqb k k')|].
+  destruct (bytes_eqb k' k1) eqn:E1.
+  - apply bytes_eqb_eq in E1. subst k1. rewrite IH. destruct (bytes_eqb k k'); reflexivity.
+  - cbn [bfind]. rewrite IH. destruct (bytes_eqb k k') eqn:E; [|reflexivity].
+    apply bytes_eqb_eq in E. subst k'. now rewrite E1.
+Qed.
+
+Lemma collect_props_nodup l k v : NoDup (List.map fst l) -> In (k, v) l -> bfind k (collect_props l) = Some v.
+Proof.
+  induction l as [|[k1 v1] l IH] using rev_ind; [intros _ []|]. intros Hnd Hin.
+  unfold collect_props in *. rewrite fold_left_app. cbn [fold_left fst snd]. unfold bupd at 1. cbn [bfind].
+  rewrite map_app in Hnd. cbn [List.map fst] in Hnd. destruct (nodup_app_inv _ _ Hnd) as (Hl & _ & Hdis).
+  apply in_app_or in Hin. destruct Hin as [Hin|[[= <- <-]|[]]].
+  - assert (Hne : bytes_eqb k k1 = false).
+    { apply bytes_eqb_neq. intros ->. apply (Hdis k1); [apply in_map_iff; exists (k1, v); auto|now left]. }
+    rewrite Hne, bfind_bremove', Hne. now apply IH.
+  - now rewrite bytes_eqb_refl.
+Qed.
+
+(* ========================================================================================== *)
+(* G3, part 4: the hypotheses of BinRoundTrip on the plan, from executable checks on the DOM    *)
+(* ========================================================================================== *)
+Definition dom_sstrs_ok (d : db) (dom : cdom) : bool :=
+  N.ltb (N.of_nat (length (dom_sstrs d dom))) 4294967296 &&
+  forallb (fun s => N.ltb (N.of_nat (length s)) 4294967296) (dom_sstrs d dom).
+
+Lemma nodup_keys_filter {V} (f : bytes * V -> bool) l : NoDup (List.map fst l) -> NoDup (List.map fst (filter f l)).
+Proof.
+  induction l as [|x l IH]; intros H; [constructor|]. cbn [List.map] in H. apply NoDup_cons_iff in H. destruct H as [Hx Hl].
+  cbn [filter]. destruct (f x); [|auto]. cbn [List.map]. constructor; [|auto].
+  intros Hin. apply Hx. apply in_map_iff in Hin. destruct Hin as (y & Ey & Hy). apply filter_In in Hy. apply in_map_iff. exists y. tauto.
+Qed.
+
+Theorem plan_hyps_from_dom d ep dom ts st :
+  enc_ready d ep dom ts -> dom_spellings_agree d dom -> (forall i, In i dom -> class_good d (i_class i)) ->
+  dom_values_ok d ep dom = true -> dom_sstrs_ok d dom = true ->
+  add_instances d ep dom (List.map root ts) = Ok st ->
+  BinRoundTrip.sstr_ok st /\ BinRoundTrip.ser_names_ok st /\ BinRoundTrip.name_cols_ok st /\
+  (forall cn ti, In (cn, ti) (ss_types st) -> NoDup (List.map fst (ti_props ti))).
+Proof.
+  intros Hr HS Hgood Hvals Hss Hst.
+  pose proof (dom_spellings_types d dom HS) as HA. pose proof (dom_values_inst_ok d ep dom Hvals) as Hok.
+  destruct (add_instances_total d ep dom ts Hr HA Hok) as (st' & st0 & Hadd & Hrel & Hndr & Hinv & Hg0 & Hty & Hperm).
+  rewrite Hst in Hadd. injection Hadd as <-.
+  pose proof (known_columns_cells d ep dom ts st Hr HS Hgood Hvals Hst) as Hcols.
+  assert (Hnd : forall cn ti, In (cn, ti) (ss_types st) -> NoDup (List.map fst (ti_props ti))).
+  { intros cn ti Hct. assert (Hb : bfind cn (ss_types st0) = Some ti).
+    { rewrite <- Hty. apply in_bfind; [|exact Hct]. apply sorted_NoDup. exact (inv_sorted _ _ Hinv). }
+    destruct (proj1 Hg0 cn ti Hb) as (_ & _ & _ & _ & S0). apply sorted_NoDup. exact S0. }
+  split; [|split; [|split; [|exact Hnd]]].
+  - unfold dom_sstrs_ok in Hss. apply andb_true_iff in Hss. destruct Hss as [H1 H2]. apply N.ltb_lt in H1. rewrite forallb_forall in H2.
+    assert (Hincl : incl (ss_sstr st) (dom_sstrs d dom)).
+    { intros s Hs. apply (proj2 Hg0 s). eapply Permutation_in; [exact Hperm|exact Hs]. }
+    split.
+    + pose proof (NoDup_incl_length (inv_sstr _ _ Hinv) Hincl). change (2 ^ 32) with 4294967296. lia.
+    + apply Forall_forall. intros s Hs. change (2 ^ 32) with 4294967296. apply N.ltb_lt. apply H2. now apply Hincl.
+  - intros [[c ti] [canon pi]] Hx. cbn [fst snd]. unfold BinRoundTrip.cols in Hx. apply in_flat_map in Hx.
+    destruct Hx as ([c' ti'] & Hct & Hx). apply in_map_iff in Hx. destruct Hx as ([canon' pi'] & E & Hcp). injection E as -> -> -> ->.
+    cbn [snd] in Hcp. destruct (bytes_eq_dec canon NAME) as [->|Hn].
+    + destruct (BinRoundTrip.enc_name_entry _ _ _ _ _ Hst c ti Hct) as [_ Hall]. destruct (Hall pi Hcp) as [_ ->].
+      split; [vm_compute; reflexivity|vm_compute; reflexivity].
+    + destruct (proj1 (Hcols c ti canon pi Hct Hcp) Hn) as (cty & _ & _ & Hu & Hl & _). auto.
+  - eapply BinRoundTrip.name_cols_ok_intro; [exact Hst|]. intros c ti canon pi Hct Hcp. split.
+    + intros Hs. destruct (bytes_eq_dec canon NAME) as [E|Hn]; [exact E|]. exfalso.
+      destruct (proj1 (Hcols c ti canon pi Hct Hcp) Hn) as (cty & _ & _ & _ & _ & Hne). contradiction.
+    + exact (proj2 (Hcols c ti canon pi Hct Hcp)).
+Qed.
+
+Lemma cell_not_uid q rn wt cty v : cell_ok wt cty v = true -> forall a b c, normB q rn wt cty v <> VUniqueId a b c.
+Proof. intros H a b c. destruct wt, v; try discriminate H; cbn [normB]; try discriminate; destruct (N.eqb cty VT_BinaryString); discriminate. Qed.
+
+(* ========================================================================================== *)
+(* G3: the closed whole-file statement for database-known (and unknown) properties              *)
+(* ========================================================================================== *)
+Theorem known_props_roundtrip d ep cmp dom ts p :
+  enc_ready d ep dom ts -> BinRoundTrip.input_ok dom ts -> BinRoundTrip.names_ok dom ->
+  dom_spellings_agree d dom -> (forall i, In i dom -> class_good d (i_class i)) ->
+  dom_values_ok d ep dom = true -> dom_sstrs_ok d dom = true ->
+  dp_lim p = None ->
+  (forall e, encode_chunks d ep dom (List.map root ts) = Ok e -> BinRoundTrip.frame_ok p cmp e) ->
+  exists b st out,
+    encode_file d ep cmp dom (List.map root ts) = Ok b /\
+    add_instances d ep dom (List.map root ts) = Ok st /\
+    decode_file d p b = Ok out /\
+    BinRoundTrip.same_forest dom ts (BinRoundTrip.lbl st) out /\
+    forall cn ti k r, In (cn, ti) (ss_types st) -> nth_error (ti_instances ti) k = Some r ->
+      exists i i', find_inst dom r = Some i /\ i_class i = cn /\
+        find_inst out (BinRoundTrip.lbl st r) = Some i' /\ i_ref i' = BinRoundTrip.lbl st r /\
+        i_class i' = cn /\ i_name i' = i_name i /\
+        (* no legacy (or alias) name survives: every property read back is named by a column's canonical name *)
+        (forall k v, In (k, v) (i_props i') -> k <> NAME /\ exists pi, In (k, pi) (ti_props ti)) /\
+        forall canon pi, In (canon, pi) (ti_props ti) -> canon <> NAME ->
+          exists cty,
+            (* the canonical name is the one the reader's database gives for the serialized name *)
+            find_canonical_property d (pi_type pi) cn (pi_ser_name pi) = Ok (Some (canon, cty, None)) /\
+            (* own value: normB of the value after the migration of its own spelling *)
+            (inst_one_spelling d i -> forall n v s ty m, In (n, v) (i_props i) ->
+               resolve_prop d cn n v = Ok (RProp canon s ty m) ->
+               bfind canon (i_props i') = Some (normB (ep_quant ep) (BinRoundTrip.ref_new st) (pi_type pi) cty (migv ep m v))) /\
+            (* no spelling of it, but a class-mate had one: the default of the instance's class (after the column's migration, as the
+               serializer applies it) *)
+            ((forall n v s ty m, In (n, v) (i_props i) -> resolve_prop d cn n v <> Ok (RProp canon s ty m)) ->
+               bfind canon (i_props i') = Some (normB (ep_quant ep) (BinRoundTrip.ref_new st) (pi_type pi) cty (migv ep (pi_migration pi) (pi_default pi))) /\
+               exists ty0, col_plan d (get_class d (string_of_bytes cn)) canon ty0 = Ok (pi_default pi, pi_type pi)).
+Proof.
+  intros Hr Hin Hnames HS Hgood Hvals Hss Hlim Hframe.
+  pose proof (dom_spellings_types d dom HS) as HA. pose proof (dom_values_inst_ok d ep dom Hvals) as Hok.
+  destruct (encode_file_total d ep cmp dom ts Hr HA Hgood Hok) as [b Hb].
+  destruct (add_instances_total d ep dom ts Hr HA Hok) as (st & st0 & Hadd & Hrel & Hndr & Hinv & Hg0 & Hty & Hperm).
+  destruct (plan_hyps_from_dom d ep dom ts st Hr HS Hgood Hvals Hss Hadd) as (Hsstr & Hser & Hncol & Hnd).
+  pose proof (known_columns_cells d ep dom ts st Hr HS Hgood Hvals Hadd) as Hcols.
+  assert (Hlen : (Z.of_nat (length (ss_relevant st)) <= 2147483647)%Z).
+  { assert (length (ss_relevant st) <= length dom)%nat; [|pose proof (er_size _ _ _ _ Hr); lia].
+    rewrite <- (map_length i_ref dom). apply NoDup_incl_length; [exact Hndr|]. intros r. now apply relevant_in_dom. }
+  assert (Hsrc : forall cn ti r, In (cn, ti) (ss_types st) -> In r (ti_instances ti) ->
+                 exists i, find_inst dom r = Some i /\ BinRoundTrip.src dom r = i).
+  { intros cn ti r Hct Hri. assert (Hrr : In r (ss_relevant st)).
+    { rewrite (inv_insts _ _ Hinv cn ti Hct) in Hri. apply filter_In in Hri. tauto. }
+    pose proof (inv_found _ _ Hinv r Hrr) as Hf. destruct (find_inst dom r) as [i|] eqn:E; [|congruence].
+    exists i. split; [reflexivity|]. now apply BinRoundTrip.find_inst_src. }
+  destruct (BinRoundTrip.file_values_roundtrip d ep cmp dom ts b p st (known_read d ep dom st) Hin Hnames Hb Hadd Hlim Hframe Hsstr Hser Hncol)
+    as (out & Hdec & Hforest & Hinst).
+  { intros [[c ti] [canon pi]] Hx Hn. cbn [fst snd] in Hn. unfold BinRoundTrip.cols in Hx. apply in_flat_map in Hx.
+    destruct Hx as ([c' ti'] & Hct & Hx). apply in_map_iff in Hx. destruct Hx as ([canon' pi'] & E & Hcp). injection E as -> -> -> ->.
+    cbn [snd] in Hcp. destruct (proj1 (Hcols c ti canon pi Hct Hcp) Hn) as (cty & Hfc & Hcells & _).
+    apply (known_col_law d ep p dom ts st (c, ti, (canon, pi)) cty Hadd Hndr Hlen Hlim); cbn [fst snd].
+    - exact Hfc.
+    - unfold BinRoundTrip.col_values. destruct (ti_instances ti) eqn:E; [now destruct (inv_nonempty _ _ Hinv c ti Hct)|discriminate].
+    - unfold BinRoundTrip.col_values. apply Forall_forall. intros v Hv. apply in_map_iff in Hv. destruct Hv as (i & <- & Hi).
+      apply in_map_iff in Hi. destruct Hi as (r & <- & Hri). destruct (Hsrc c ti r Hct Hri) as (i & Hfi & ->).
+      apply (Hcells r i Hri Hfi). }
+  exists b, st, out. split; [exact Hb|]. split; [exact Hadd|]. split; [exact Hdec|]. split; [exact Hforest|].
+  intros cn ti k r Hct Hk. pose proof (nth_error_In _ _ Hk) as Hri.
+  destruct (Hsrc cn ti r Hct Hri) as (i & Hfi & Hsrci).
+  destruct (Hinst cn ti k r Hct Hk) as (i' & H1 & H2 & H3 & H4 & H5).
+  rewrite (read_props_known p d ep dom st cn ti k r Hk) in H5.
+  (* the cells of this instance *)
+  assert (Hmine : forall canon pi, In (canon, pi) (ti_props ti) -> canon <> NAME ->
+            exists cty, find_canonical_property d (pi_type pi) cn (pi_ser_name pi) = Ok (Some (canon, cty, None)) /\
+              cty_of d (cn, ti, (canon, pi)) = cty /\
+              cell_ok (pi_type pi) cty (prop_value ep canon pi (ep_order ep (pi_aliases pi)) i) = true /\
+              (forall n v s ty m, In (n, v) (i_props i) -> resolve_prop d cn n v = Ok (RProp canon s ty m) ->
+                 migv ep (pi_migration pi) v = migv ep m v)).
+  { intros canon pi Hcp Hn. destruct (proj1 (Hcols cn ti canon pi Hct Hcp) Hn) as (cty & Hfc & Hcells & _).
+    exists cty. split; [exact Hfc|]. split; [unfold cty_of; cbn [fst snd]; now rewrite Hfc|]. apply (Hcells r i Hri Hfi). }
+  apply (BinRoundTrip.uid_norm_eq p _ _) in H5.
+  2:{ intros a b0 c0 Hi. apply BinRoundTrip.collect_props_in in Hi. unfold known_props in Hi. apply in_map_iff in Hi.
+      destruct Hi as ([canon pi] & E & Hcp). cbn [fst snd] in E. injection E as _ E.
+      apply filter_In in Hcp. destruct Hcp as [Hcp Hnn]. cbn [fst] in Hnn. apply negb_true_iff in Hnn.
+      destruct (Hmine canon pi Hcp (bytes_eqb_false_neq _ _ Hnn)) as (cty & _ & Ec & Hcell & _). rewrite Ec, Hsrci in E.
+      revert E. now apply cell_not_uid. }
+  assert (Hb' : bfind cn (ss_types st0) = Some ti).
+  { rewrite <- Hty. apply in_bfind; [|exact Hct]. apply sorted_NoDup. exact (inv_sorted _ _ Hinv). }
+  destruct (proj1 Hg0 cn ti Hb') as (_ & _ & M0 & _). pose proof (M0 r i Hri Hfi) as Hcl.
+  exists i, i'. split; [exact Hfi|]. split; [exact Hcl|]. split; [exact H1|]. split; [exact H2|].
+  split; [rewrite H3; unfold class_of; now rewrite Hfi|]. split; [now rewrite H4, Hsrci|].
+  assert (Hkeys : List.map fst (known_props d ep dom st cn ti r)
+                  = List.map fst (filter (fun cp => negb (bytes_eqb (fst cp) NAME)) (ti_props ti))).
+  { unfold known_props. rewrite map_map. reflexivity. }
+  split.
+  - intros k0 v Hkv. rewrite H5 in Hkv. apply BinRoundTrip.collect_props_in in Hkv. unfold known_props in Hkv.
+    apply in_map_iff in Hkv. destruct Hkv as ([canon pi] & E & Hcp). cbn [fst snd] in E. injection E as <- _.
+    apply filter_In in Hcp. destruct Hcp as [Hcp Hnn]. cbn [fst] in Hnn. apply negb_true_iff in Hnn.
+    split; [now apply bytes_eqb_false_neq|eauto].
+  - intros canon pi Hcp Hn. destruct (Hmine canon pi Hcp Hn) as (cty & Hfc & Ec & Hcell & Hmg). exists cty. split; [exact Hfc|].
+    assert (Hread : bfind canon (i_props i') =
+                    Some (normB (ep_quant ep) (BinRoundTrip.ref_new st) (pi_type pi) cty (prop_value ep canon pi (ep_order ep (pi_aliases pi)) i))).
+    { rewrite H5. apply collect_props_nodup.
+      - rewrite Hkeys. apply nodup_keys_filter. exact (Hnd cn ti Hct).
+      - unfold known_props. apply in_map_iff. exists (canon, pi). cbn [fst snd]. rewrite Ec, Hsrci. split; [reflexivity|].
+        apply filter_In. split; [exact Hcp|]. cbn [fst]. apply negb_true_iff. now apply bytes_eqb_neq. }
+    destruct (written_columns_spec d ep dom ts st Hr HA Hgood Hok Hadd cn ti canon pi r i Hct Hcp Hn Hri Hfi) as (_ & Hown & Hdef).
+    split.
+    + intros H1s n v s ty m Hinv' Hres. rewrite Hread, (Hown H1s n v s ty m Hinv' Hres), (Hmg n v s ty m Hinv' Hres). reflexivity.
+    + intros Hno. destruct (Hdef Hno) as [Hv Hty0]. rewrite Hread, Hv. split; [reflexivity|exact Hty0].
+Qed.
+Print Assumptions known_props_roundtrip.
+
+(* ========================================================================================== *)
+(* G3 on the database the crates load                                                          *)
+(* ========================================================================================== *)
+(* diagnosis, per class: the names whose serialized name the reader does not map back to the same canonical name
+   without migration (the per-pair check [pair_cells_ok] fails for values of these properties) *)
+Definition back_offenders_class (d : db) (c : cdesc) : list (string * string) :=
+  flat_map (fun pn =>
+    match known_resolve d (cd_name c) pn with
+    | Ok (Some (RProp cn s ty m)) =>
+        match col_plan d (Some c) cn ty with
+        | Ok (_, wt) =>
+            match find_canonical_property d wt (bstr (cd_name c)) s with
+            | Ok (Some (c', _, None)) => if bytes_eqb c' cn then [] else [(cd_name c, pn)]
+            | _ => [(cd_name c, pn)]
+            end
+        | _ => []
+        end
+    | _ => []
+    end) (visible_names d c).
+Definition back_offenders (d : db) : list (string * string) := flat_map (back_offenders_class d) (db_classes d).
+
+(* the two properties whose serialized name belongs to another property (cf. DbFacts.bundled_names_roundtrip_refuted) *)
+Theorem bundled_back_offenders :
+  back_offenders Database.database = [("MaterialService", "Use2022Materials"); ("Sound", "MaxDistance")]%string.
+Proof. vm_cast_no_check (eq_refl (back_offenders Database.database)). Qed.
+
+Lemma pairs_nodup_agree (l : list (bytes * value)) : NoDup (List.map fst l) ->
+  forall n v1 v2, In (n, v1) l -> In (n, v2) l -> v1 = v2.
+Proof. intros Hnd n v1 v2 H1 H2. pose proof (in_bfind _ _ _ Hnd H1) as E1. rewrite (in_bfind _ _ _ Hnd H2) in E1. congruence. Qed.
+
+(* the database hypotheses discharged: class_good by bundled_class_good, the consistency of spellings by bundled_agree *)
+Corollary known_props_roundtrip_bundled ep cmp dom ts p :
+  enc_ready Database.database ep dom ts -> BinRoundTrip.input_ok dom ts -> BinRoundTrip.names_ok dom ->
+  (forall cn n v1 v2, In (n, v1) (class_pairs dom cn) -> In (n, v2) (class_pairs dom cn) ->
+     known_resolve Database.database (string_of_bytes cn) (string_of_bytes n) = Ok None -> vtype v1 = vtype v2) ->
+  dom_values_ok Database.database ep dom = true -> dom_sstrs_ok Database.database dom = true ->
+  dp_lim p = None ->
+  (forall e, encode_chunks Database.database ep dom (List.map root ts) = Ok e -> BinRoundTrip.frame_ok p cmp e) ->
+  exists b st out,
+    encode_file Database.database ep cmp dom (List.map root ts) = Ok b /\
+    add_instances Database.database ep dom (List.map root ts) = Ok st /\
+    decode_file Database.database p b = Ok out /\
+    BinRoundTrip.same_forest dom ts (BinRoundTrip.lbl st) out /\
+    forall cn ti k r, In (cn, ti) (ss_types st) -> nth_error (ti_instances ti) k = Some r ->
+      exists i i', find_inst dom r = Some i /\ i_class i = cn /\
+        find_inst out (BinRoundTrip.lbl st r) = Some i' /\ i_ref i' = BinRoundTrip.lbl st r /\
+        i_class i' = cn /\ i_name i' = i_name i /\
+        (forall k v, In (k, v) (i_props i') -> k <> NAME /\ exists pi, In (k, pi) (ti_props ti)) /\
+        forall canon pi, In (canon, pi) (ti_props ti) -> canon <> NAME ->
+          exists cty,
+            find_canonical_property Database.database (pi_type pi) cn (pi_ser_name pi) = Ok (Some (canon, cty, None)) /\
+            (inst_one_spelling Database.database i -> forall n v s ty m, In (n, v) (i_props i) ->
+               resolve_prop Database.database cn n v = Ok (RProp canon s ty m) ->
+               bfind canon (i_props i') = Some (normB (ep_quant ep) (BinRoundTrip.ref_new st) (pi_type pi) cty (migv ep m v))) /\
+            ((forall n v s ty m, In (n, v) (i_props i) -> resolve_prop Database.database cn n v <> Ok (RProp canon s ty m)) ->
+               bfind canon (i_props i') = Some (normB (ep_quant ep) (BinRoundTrip.ref_new st) (pi_type pi) cty
+                                                      (migv ep (pi_migration pi) (pi_default pi))) /\
+               exists ty0, col_plan Database.database (get_class Database.database (string_of_bytes cn)) canon ty0
+                           = Ok (pi_default pi, pi_type pi)).
+Proof.
+  intros Hr Hin Hnames Hunk Hvals Hss Hlim Hframe.
+  apply (known_props_roundtrip Database.database ep cmp dom ts p); auto.
+  - intros cn. apply bundled_agree. apply Hunk.
+  - intros i _. apply bundled_class_good.
+Qed.
+
+(* ---- a computed example on the bundled database: a Part with the legacy BrickColor, a Part with Size only, and an instance of a
+   class the database does not know ---- *)
+Definition ep_ex : enc_params := mkEP [] [(21, (196, 40, 28))] (fun _ => 0) (fun l => l) [].
+Definition dp_ex : dec_params := mkDP [] [(21, (196, 40, 28))] (fun _ _ => None) (VUniqueId 0 0 0%Z) None.
+Definition part_a : inst := mkInst 1 0 (bstr "Part") (bstr "A") [(bstr "BrickColor", VBrickColor 21)].
+Definition part_b : inst := mkInst 2 0 (bstr "Part") (bstr "B") [(bstr "Size", VVector3 (mkV3 F32_ONE F32_ONE F32_ONE))].
+Definition odd_c : inst := mkInst 3 0 (bstr "NotAClass") (bstr "C") [(bstr "Flag", VBool true); (bstr "Note", VString [104; 105])].
+Definition ex_dom : cdom := [part_a; part_b; odd_c].
+Definition ex_ts : list tree := [Node 1 []; Node 2 []; Node 3 []].
+Definition obs (r : res cdom) : list (bytes * bytes * list (bytes * value)) :=
+  match r with Ok out => List.map (fun i => (i_class i, i_name i, i_props i)) out | _ => [] end.
+Definition frame_okb (e : encoded) : bool := forallb (fun c => N.ltb (N.of_nat (length (snd c))) 4294967296) (en_chunks e).
+
+Lemma frame_okb_ok p e : frame_okb e = true -> BinRoundTrip.frame_ok p None e.
+Proof.
+  unfold frame_okb, BinRoundTrip.frame_ok. rewrite forallb_forall. intros H. apply Forall_forall. intros c Hc.
+  split; [|exact I]. split; [|exact I]. change (2 ^ 32) with 4294967296. apply N.ltb_lt. now apply H.
+Qed.
+
+Example bundled_example_hypotheses :
+  enc_ready Database.database ep_ex ex_dom ex_ts /\ BinRoundTrip.input_ok ex_dom ex_ts /\ BinRoundTrip.names_ok ex_dom /\
+  (forall cn n v1 v2, In (n, v1) (class_pairs ex_dom cn) -> In (n, v2) (class_pairs ex_dom cn) ->
+     known_resolve Database.database (string_of_bytes cn) (string_of_bytes n) = Ok None -> vtype v1 = vtype v2) /\
+  dom_values_ok Database.database ep_ex ex_dom = true /\ dom_sstrs_ok Database.database ex_dom = true /\
+  (forall e, encode_chunks Database.database ep_ex ex_dom (List.map root ex_ts) = Ok e -> BinRoundTrip.frame_ok dp_ex None e) /\
+  (forall i, In i ex_dom -> inst_one_spelling_b Database.database i = true).
+Proof.
+  assert (Hs : dom_sstrs Database.database ex_dom = []) by (vm_compute; reflexivity).
+  split; [|split; [|split; [|split; [|split; [|split; [|split]]]]]].
+  - constructor.
+    + cbn. repeat constructor; cbn; intuition discriminate.
+    + repeat (constructor; try (vm_compute; reflexivity)).
+    + cbn. repeat constructor; cbn; intuition discriminate.
+    + apply Forall_forall. intros t [<-|[<-|[<-|[]]]]; cbn; auto.
+    + cbn. lia.
+    + intros l. apply Permutation_refl.
+    + intros s H. unfold sstr_src in H. rewrite Hs in H. destruct H.
+  - split; [|split; [|split; [|split]]].
+    + cbn. repeat constructor; cbn; intuition discriminate.
+    + repeat constructor; vm_compute; reflexivity.
+    + repeat (constructor; try (vm_compute; reflexivity)).
+    + cbn. repeat constructor; cbn; intuition discriminate.
+    + cbn. intuition discriminate.
+  - repeat constructor; vm_compute; reflexivity.
+  - intros cn n v1 v2 H1 H2 _. f_equal.
+    assert (Hall : forall x, In x (class_pairs ex_dom cn) -> In x (flat_map i_props ex_dom)).
+    { intros x Hx. unfold class_pairs in Hx. apply in_flat_map in Hx. destruct Hx as (i & Hi & Hx). apply filter_In in Hi.
+      apply in_flat_map. exists i. tauto. }
+    apply (pairs_nodup_agree (flat_map i_props ex_dom)) with (n := n); auto.
+    vm_compute. repeat constructor; cbn; intuition discriminate.
+  - vm_compute. reflexivity.
+  - vm_compute. reflexivity.
+  - intros e He. apply frame_okb_ok.
+    assert (H : match encode_chunks Database.database ep_ex ex_dom (List.map root ex_ts) with Ok e0 => frame_okb e0 | _ => true end = true)
+      by (vm_compute; reflexivity).
+    rewrite He in H. exact H.
+  - intros i [<-|[<-|[<-|[]]]]; vm_compute; reflexivity.
+Qed.
+
+(* the theorem applies, and the decoded DOM computed: Part A reads back Color (canonical; the legacy BrickColor 21 migrated) and the
+   class default of Size; Part B its own Size and the class default of Color; the unknown class its own values (a String as
+   BinaryString); no "BrickColor", no "Color3uint8", no "size" *)
+Example bundled_example_roundtrip :
+  (exists b st out,
+     encode_file Database.database ep_ex None ex_dom (List.map root ex_ts) = Ok b /\
+     add_instances Database.database ep_ex ex_dom (List.map root ex_ts) = Ok st /\
+     decode_file Database.database dp_ex b = Ok out /\
+     BinRoundTrip.same_forest ex_dom ex_ts (BinRoundTrip.lbl st) out) /\
+  obs (b <- encode_file Database.database ep_ex None ex_dom [1; 2; 3] ;; decode_file Database.database dp_ex b)
+  = [(bstr "Part", bstr "A", [(bstr "Size", VVector3 (mkV3 1082130432 1067030938 1073741824)); (bstr "Color", VColor3uint8 196 40 28)]);
+     (bstr "Part", bstr "B", [(bstr "Size", VVector3 (mkV3 F32_ONE F32_ONE F32_ONE)); (bstr "Color", VColor3uint8 163 162 165)]);
+     (bstr "NotAClass", bstr "C", [(bstr "Note", VBinaryString [104; 105]); (bstr "Flag", VBool true)])].
+Proof.
+  destruct bundled_example_hypotheses as (H1 & H2 & H3 & H4 & H5 & H6 & H7 & _).
+  split; [|vm_compute; reflexivity].
+  destruct (known_props_roundtrip_bundled ep_ex None ex_dom ex_ts dp_ex H1 H2 H3 H4 H5 H6 eq_refl H7) as (b & st & out & A & B & C & D & _).
+  exists b, st, out. auto.
+Qed.
+Print Assumptions known_props_roundtrip_bundled.
+Print Assumptions bundled_example_roundtrip.
